@@ -182,6 +182,22 @@ def run_case(case):
     for i, rd in enumerate(case["reads"]):
         rd = dict(rd, start=wide.start - 700 + rd["start"] % max(1, (wide.end - wide.start) + 900))
         reads.append(make_read(sim, rd, i, case["sim_seed"]))
+    if case.get("endreads"):
+        # (c) directed: reads whose alignment ENDS exactly on a catalogued insertion site (the base before the inserted bases) - with a
+        # substituted last base, with the catalogued insertion as their last operation, and the same followed by a soft clip
+        G = sim.genome
+        sub = {"A": "C", "C": "G", "G": "T", "T": "A"}
+        k = 0
+        for (p, o) in sorted(gene.mutations):
+            if not o.startswith("ins") or p < 25 or G[p] not in sub:
+                continue
+            body = G[p - 19:p + 1]
+            for cig, sq in (([("M", 20)], body[:-1] + sub[body[-1]]),
+                            ([("M", 20), ("I", len(o) - 3)], body + o[3:]),
+                            ([("M", 20), ("I", len(o) - 3), ("S", 3)], body + o[3:] + "ACG"),
+                            ([("M", 20)], body)):
+                reads.append({"name": f"e{k}", "pos": p - 19, "cig": cig, "seq": sq, "qual": [30] * len(sq), "mq": 60, "flag": 0})
+                k += 1
     for r in reads:
         a, b = refpile.ref_span(r)
         r["_ref"] = sim.genome[a:b + 1]
@@ -209,6 +225,8 @@ def run_case(case):
         labels.append("hardclip")
     if any("N" in r["seq"] for r in elig):
         labels.append("no-call-base")
+    if any(r["name"].startswith("e") for r in reads):
+        labels.append("reads-ending-on-an-insertion-site")
 
     viol = []
     bam = write_reads(os.path.join(d, "r.bam"), sim, reads, "bam")
@@ -349,6 +367,7 @@ def strategy(tier):
         "rl": st.sampled_from([40, 80, 120]),
         "reads": st.lists(read_desc(), min_size=5, max_size=60),
         "indelpost": st.booleans(),
+        "endreads": st.booleans(),
         "perm": st.integers(0, 10 ** 6),
         "sim_seed": st.integers(0, 10 ** 6),
     })
